@@ -119,6 +119,7 @@ CLAIMS["C03"] = (
     "DESIGN.md C03")
 
 NOT_APPLICABLE = {
+    "C14": "the key-output table builder (create_key_outputs / add_key_output_from_action_to_key_pos) fills an FxHashMap<OsCode, Vec<OsCode>> and the repeat lookup needs a Kanata value; hashbrown code does not finish under CBMC even for concrete two-entry tables (measured on Overrides::update_keys, 25 min in symbolic execution), so no kernel decides a clause of this property",
     "C15": "live reload is file I/O + the whole parser on two configurations + TCP notifications + a relational comparison of two whole executions; no bounded kernel of it can be encoded for CBMC (DESIGN.md 'Not applicable')",
     "C16": "a relation between two complete parses of two program texts; the parser (heap, Rc<str>, hash maps) cannot be executed symbolically within reach (measured: sexpr::parse on 4 symbolic bytes does not finish in 25 min) and running it on concrete rewritten texts would be testing, not solver-based checking",
     "C20": "zch_press_key lives behind a global Mutex, Arc-shared follow-up maps and the output device; correctness is a text-buffer simulation over whole typing histories; no kernel decides any clause of the property",
